@@ -889,7 +889,12 @@ def pair_lines(case):
 
 def pair_family(ctx, prop_id, mode, profile, n, kinds, rule, extra=None, also_s5=True, diff_known=None):
     ob, dis, details = proof_obligations(ctx, prop_id)
-    cases = load_cases(ctx, mode, n, profile)
+    profiles = profile if isinstance(profile, (list, tuple)) else [(profile, n)]
+    cases = None
+    for prof, cnt in profiles:
+        cs = load_cases(ctx, mode, cnt, prof)
+        if cs is not None:
+            cases = (cases or []) + cs
     stats = collections.Counter(); distinct = set()
     if cases is not None:
         if also_s5:
@@ -986,7 +991,7 @@ def c14(ctx):
     rule = ('for a Desired or auto-desired provider d of a generated chain (not Shun\'d, not in a Cluster) the chain is re-run with d marked '
             'Required: d must be included in the base exactly when the variant binds, and then both behave identically (verdict, included '
             'set, trace); MustConsume: verified validator on the implementation\'s bound chain (nearest actual consumer); S5 correspondence')
-    return pair_family(ctx, 'C14', 'desired', 'plain', n, ['desired'], rule, extra)
+    return pair_family(ctx, 'C14', 'desired', [('plain', n), ('reorderplain', n // 3)], n, ['desired'], rule, extra)
 
 
 # ---------------------------------------------------------------- concurrency family: C08 C09 C10 (C12 below)
@@ -1063,7 +1068,29 @@ def c08(ctx):
             'invocation never writes the shared base; workloads under -race: nested wrappers calling inner twice (and a Parallel wrapper '
             'calling it from two goroutines), 4-16 goroutines x 10-50 invocations with distinct arguments, every result compared with the '
             'sequential expectation; memoized/singleton sharing across chains covered by the C09/C10 workloads in the same run')
-    return conc_family(ctx, 'C08', ['isolation', 'memo', 'singleton', 'static'], rule)
+    def seq(ctx, st):
+        # isolation between the inner() calls of one wrapper and between successive invocations is also visible sequentially:
+        # the Spec keeps them apart by construction, so any difference in a chain with a wrapper that calls inner() more than
+        # once, or in a later invocation, is something that leaked
+        for prof, cnt in (('default', None), ('memo', 600 if ctx.tier == 'quick' else 6000)):
+            cases = load_cases(ctx, 'run', cnt, prof)
+            if cases is None:
+                continue
+            n = 0
+            for c in cases:
+                if not c.ok or c.skip:
+                    continue
+                n += 1
+                who, i = classify_diff(c.t, c.s)
+                if who is not None:
+                    multi = any(' calls=2' in l or ' calls=3' in l for l in c.lines if l.startswith('p ') and 'kind=wrap' in l)
+                    later = sum(1 for l in c.lines if l.startswith('op invoke')) > 1
+                    if multi or later:
+                        ctx.violations.append(('trace differs from the Spec at event %d in a chain with %s: a value from another inner() call or invocation is visible (case %s)'
+                                               % (i, 'a wrapper calling inner() several times' if multi else 'several invocations', c.key),
+                                               write_replay(ctx, 'case_%s.txt' % c.key, c.text()), True))
+            ctx.cov['sequential_traces_' + prof] = n
+    return conc_family(ctx, 'C08', ['isolation', 'memo', 'singleton', 'static'], rule, seq)
 
 
 @prop('C12')
@@ -1197,7 +1224,8 @@ def c04(ctx):
         elif len(ctx.samples) < 3:
             ctx.samples.append(l)
     total = []
-    for mode, n, prof in (('malformed', 2000 if ctx.tier == 'quick' else 20000, 'default'), ('run', None, 'default'), ('edit', 1000 if ctx.tier == 'quick' else 10000, 'default')):
+    for mode, n, prof in (('malformed', 2000 if ctx.tier == 'quick' else 20000, 'default'), ('run', None, 'default'), ('edit', 1000 if ctx.tier == 'quick' else 10000, 'default'),
+                          ('run', 600 if ctx.tier == 'quick' else 6000, 'memo')):   # repeated invocations hitting the memo caches
         cs = load_cases(ctx, mode, n, prof)
         if cs is not None:
             total += [(mode, c) for c in cs]
